@@ -206,7 +206,7 @@ func newOcspWorld(cfg OcspCfg, seed int64) *ocspWorld {
 		lastLife: map[string]time.Duration{}, lastNU: map[string]time.Time{}, claim: map[string]int{}}
 	w.errBase = int(((seed % 5) + 5) % 5)
 	dim := rand.New(rand.NewSource(seed*0x9E3779B9 + 5)) // concretisation dimensions are drawn independently of each other
-	issuerLikeness := dim.Intn(3)                         // 0: unlike, 1: same name, 2: same key identifier
+	issuerLikeness := dim.Intn(3)                        // 0: unlike, 1: same name, 2: same key identifier
 	// (an operator who lists the other CA among the trusted responder certificates trusts it not to copy this CA's key identifier:
 	// with both, issuer candidates found by key identifier alone include the other CA - DESIGN.md section 8)
 	trustOthers := dim.Intn(2) == 0 && issuerLikeness != 2
